@@ -643,7 +643,7 @@ Definition code (c : tree * q) : nat :=
       (match r with
        | Some l => if set_eqb (children_importlib (FS t) (LS t) LSFX (t_short t) pkg) l then 0 else 2
        | None => 0 end) +
-      (if dom (FS t) LSFX (t_short t) pkg && forallb (dir_ok (FS t) (LS t) LSFX LSFX) (listed_dirs t pkg)
+      (if dom (FS t) LSFX (t_short t) pkg && sfx_ordered LSFX && forallb (dir_ok2 (FS t) (LS t) LSFX) (listed_dirs t pkg)
        then 4 else 0)
   | QAssist level rest file withmod attrs o =>
       (match norm_package (FS t) level rest file with
@@ -663,7 +663,7 @@ Definition code (c : tree * q) : nat :=
       end) +
       (if forallb (root_ok (FS t)) (t_short t) &&
           match norm_package (FS t) level rest file with
-          | NOk pkg => dom (FS t) LSFX (t_short t) pkg && forallb (dir_ok (FS t) (LS t) LSFX LSFX) (listed_dirs t pkg)
+          | NOk pkg => dom (FS t) LSFX (t_short t) pkg && sfx_ordered LSFX && forallb (dir_ok2 (FS t) (LS t) LSFX) (listed_dirs t pkg)
           | NErr => true
           | NOutOfFuel => false
           end
@@ -955,6 +955,7 @@ def run(ctx):
         trees.append(gen_tree(ctx.rng, i, ext))
     strings = random_strings(ctx.rng, ctx.pick(300, 3000))
     by_id = {t['id']: t for t in trees}
+    tree_hash = {t['id']: hash(json.dumps([t['entries'], t['sources'], t['extra']], sort_keys=True)) for t in trees}
     cases, codes, sfx, lsfx = evaluate(ctx, trees, base, strings)
     cov['suffixes_supp'] = sfx
     cov['suffixes_importlib_loader_order'] = lsfx
@@ -984,7 +985,7 @@ def run(ctx):
             ctx.histogram('assist', c.info['assist']['kind'] + ':' + c.info['supp'][0] + ('' if indom else '/out-of-domain'))
         elif c.kind == 'split':
             nontrivial = '.' in c.info['s']
-        ctx.count((c.tree and by_id[c.tree]['entries'], c.kind, c.info), nontrivial=nontrivial)
+        ctx.count((c.tree and tree_hash[c.tree], c.kind, json.dumps(c.info, sort_keys=True).replace(ctx.scratch, '')), nontrivial=nontrivial)
         if nontrivial:
             ctx.sample({'kind': c.kind, 'query': c.info}, limit=8)
         if ibad and indom:
